@@ -88,8 +88,9 @@ TF_CHAIN = ["sse2", "ssse3", "sse4.1", "avx2"]     # on x86-64 each implies the 
 
 
 def split_spec(spec):
-    """a build = cargo features plus at most one `tf:<target feature>` token (compiled with -C target-feature=+<it>)"""
-    feats = [x for x in spec if not x.startswith("tf:")]
+    """a build = cargo features plus at most one `tf:<target feature>` token (compiled with -C target-feature=+<it>) and possibly
+    `profile:release` (no debug assertions)"""
+    feats = [x for x in spec if not x.startswith("tf:") and not x.startswith("profile:")]
     tfs = [x[3:] for x in spec if x.startswith("tf:")]
     level = max([TF_CHAIN.index(t) for t in tfs if t in TF_CHAIN] + [0])
     return feats, level
@@ -100,6 +101,8 @@ def cargo_build(spec, tag):
     tdir = os.path.join(core.BUILD, "c18-target" + ("" if core.REPO == "/repo" else "-alt") + ("-tf%d" % level if level else ""))
     cmd = ["cargo", "build", "--offline", "--manifest-path", os.path.join(core.REPO, "Cargo.toml"), "-p", "fast-tlsh", "--lib",
            "--no-default-features", "--target-dir", tdir]
+    if "profile:release" in spec:
+        cmd.append("--release")
     if features:
         cmd += ["--features", ",".join(features)]
     rf = ("-C target-feature=+" + TF_CHAIN[level]) if level else ""
@@ -111,24 +114,28 @@ def cargo_build(spec, tag):
 def label_of(spec):
     features, level = split_spec(spec)
     return (("RUSTFLAGS='-C target-feature=+%s' " % TF_CHAIN[level]) if level else "") + "cargo build --no-default-features --lib" + \
-        ((" --features " + ",".join(features)) if features else "")
+        (" --release" if "profile:release" in spec else "") + ((" --features " + ",".join(features)) if features else "")
 
 
 def spec_of_label(label):
     spec = label.split("--features ", 1)[1].split(",") if "--features " in label else []
+    if " --release" in label:
+        spec.append("profile:release")
     if "target-feature=+" in label:
         spec.append("tf:" + label.split("target-feature=+", 1)[1].split("'", 1)[0])
     return spec
 
 
-HOST_ATOMS = {"target_arch=x86_64": True, "debug_assertions": True}
+HOST_ATOMS = {"target_arch=x86_64": True}
 
 
-def host_value(atom, level=0):
+def host_value(atom, level=0, release=False):
     """value of a non-feature cfg atom in a BUILD run (host target, guard off, dev profile, target-feature level); None = not
     ours to choose"""
     if atom in HOST_ATOMS:
         return HOST_ATOMS[atom]
+    if atom == "debug_assertions":
+        return not release
     if atom.startswith("target_feature="):
         t = atom.split("=", 1)[1]
         return t in TF_CHAIN and TF_CHAIN.index(t) <= level
@@ -146,13 +153,14 @@ def closure_env(feats):
 def guard_holds(g, spec):
     """does guard g hold in the build `spec` (unknown atoms: either value)"""
     feats, level = split_spec(spec)
+    release = "profile:release" in spec
     env = closure_env(feats)
     free = []
     for v in ta.py_vars(g):
         if v.startswith("f:"):
             env.setdefault(v, False)
         else:
-            hv = host_value(v, level)
+            hv = host_value(v, level, release)
             if hv is None:
                 free.append(v)
             else:
@@ -167,20 +175,21 @@ def guard_holds(g, spec):
 
 def spec_for(g, allowed, extra_fixed=None):
     """a smallest build spec (features within `allowed`, lowest target-feature level) in which guard g holds, or None"""
-    for level in range(len(TF_CHAIN)):
-        fx = {"f:std": False, "f:alloc": False}
-        fx.update(extra_fixed or {})
-        for v in ta.py_vars(g):
-            if v.startswith("f:") and v[2:] not in allowed:
-                fx[v] = False
-            elif not v.startswith("f:"):
-                hv = host_value(v, level)
-                if hv is not None:
-                    fx[v] = hv
-        env = brute(g, fx)
-        if env is not None:
-            need = sorted(x[2:] for x, val in env.items() if val and x.startswith("f:"))
-            return need + (["tf:" + TF_CHAIN[level]] if level else [])
+    for release in (False, True):
+        for level in range(len(TF_CHAIN)):
+            fx = {"f:std": False, "f:alloc": False}
+            fx.update(extra_fixed or {})
+            for v in ta.py_vars(g):
+                if v.startswith("f:") and v[2:] not in allowed:
+                    fx[v] = False
+                elif not v.startswith("f:"):
+                    hv = host_value(v, level, release)
+                    if hv is not None:
+                        fx[v] = hv
+            env = brute(g, fx)
+            if env is not None:
+                need = sorted(x[2:] for x, val in env.items() if val and x.startswith("f:"))
+                return need + (["tf:" + TF_CHAIN[level]] if level else []) + (["profile:release"] if release else [])
     return None
 
 
@@ -221,7 +230,7 @@ def cfg_cover(allowed):
 
 def build_suite(ctx, extra_sets=()):
     feats = buildable_features()
-    sets = [[], feats, ["alloc"] + feats]
+    sets = [[], feats, ["alloc"] + feats, ["profile:release"], feats + ["profile:release"]]
     cover, ncov, ntodo = cfg_cover(feats)
     for b in cover:
         if b not in sets:
